@@ -5,6 +5,7 @@ import (
 	"encoding/json"
 	"fmt"
 	"math/big"
+	"os"
 	"sort"
 	"strings"
 	"sync"
@@ -506,6 +507,10 @@ func TestC11(t *testing.T) {
 			rec.Sample(map[string]interface{}{"mode": c.Mode, "base": c.Base, "toml": c.TOML, "target": c.Target, "shape": c.Shape})
 		}
 	})
+	// (f) the command line tool applies -config whatever selection flags accompany it
+	if cli := os.Getenv("VERIF_CLI"); cli != "" {
+		cliConfigMatrix(t, rec, cli, stats.Scale(2, 6), "")
+	}
 	// (e) stateful: configuration does not leak between registries or runs
 	docs := []string{"", "[w_subject_contains_html_entities]\nSkip = true\n", "[e_subj_orgunit_in_ca_cert]\nCrossCert = true\n",
 		"[e_crl_next_update_invalid]\nSubscriberCRL = false\n", "[e_rsa_fermat_factorization]\nRounds = 0\n", "e_rsa_fermat_factorization = 3\n",
